@@ -6,6 +6,9 @@ props=[json.loads(l) for l in open('/verif/properties.jsonl')]
 HOOK_COMMITS=["dc2fd90"]
 # id -> (technique, level text, level note)
 DONE={
+ "C16":("runtime monitoring + Go race detector: the real http.Handler driven through httptest recorders; every answer judged by an independent spec end-device model (decrypt, MIC, echo, key derivation, RFC 3394 unwrap); concurrent pass with per-request judgement",
+        "held on the executions observed; known finding: rejoin answers carry 1.0-style session keys (pinned by the repository's own test); the concurrent pass reports the overlapping requests actually observed",
+        "trusted: crypto/aes, harness CMAC / key-wrap / device model (LoRaWAN 1.0.x + 1.1 join procedures)"),
  "C14":("runtime monitoring: independent end-device model of LinkADRReq channel-mask semantics applied to the payloads the real planner generates, over seeded network histories (with interleaved observations) and enumerated / structured device sets",
         "held on the executions observed; all 2^n device subsets for plans of <= 12 channels (<= 16 thorough), sampled + structured subsets for the 72/96-channel plans",
         "trusted: device model in harness/spec/linkadr.go"),
